@@ -284,8 +284,11 @@ impl Client {
         // Send authentication
         // Split TLS stream into reader and writer
         let (reader, mut writer) = tokio::io::split(tls_stream);
+        // A scheme pushed by the server replaces the process default: sessions
+        // opened afterwards announce and use it (so it is not pushed again).
+        let padding = PaddingFactory::updated_default().unwrap_or_else(|| self.padding.clone());
         tracing::trace!("[Client] Sending authentication");
-        send_authentication(&mut writer, &self.password_hash, &self.padding).await?;
+        send_authentication(&mut writer, &self.password_hash, &padding).await?;
         tracing::debug!("[Client] Authentication sent successfully");
 
         // Create session with reader and writer
@@ -296,7 +299,7 @@ impl Client {
         let session = Arc::new(Session::new_client(
             reader,
             writer,
-            self.padding.clone(),
+            padding,
             Some(heartbeat_config),
         ));
 
